@@ -488,6 +488,9 @@ def permissive_resolvers(rng, ir, inj):
     ])
     g = _resolver_field(ir, inj, [SInput("graphqlName", nn(named("Int")), python_name="py_name")])
     inj.resolvers[(ir.query, g)] = lambda root, ctx, info, py_name: 1
+    # arguments that are merely *called* like the catch-all parameters
+    h = _resolver_field(ir, inj, [SInput("kwargs", named("Int")), SInput("args", named("Int"))])
+    inj.resolvers[(ir.query, h)] = rng.choice([lambda root, ctx, info, **kwargs: 1, lambda *args, **kwargs: 1])
     return None
 
 
